@@ -50,6 +50,7 @@ func throughAlloc(v ssa.Value) ssa.Value {
 func checkC19(c *Ctx) {
 	c.explainf("C19 decides the structural half of interning: the two symbol tables and the counter are written only by the interning routine and the constructors; both tables are updated together with swapped key and value; the number given to a new name was tested unused in the reverse table with no change of the counter in between; a known name yields its recorded number; a generated name is tested absent from the name table before it is interned; clones and duplicates share both tables by reference; symbol comparison and hashing read the number only. It does not decide agreement with a model over creation histories.")
 	c.checkSymbolKeysByNumber("C19-KEY")
+	c.checkSymbolsComparedAsSymbols("C19-DEREF")
 	symtable := c.mustField("C19-WM", "Zlisp", "symtable")
 	revsymtable := c.mustField("C19-WM", "Zlisp", "revsymtable")
 	nextsymbol := c.mustField("C19-WM", "Zlisp", "nextsymbol")
@@ -361,4 +362,48 @@ func sameNumber(a, b ssa.Value, next *types.Var) bool {
 	_, okA := loadOfField(a, next)
 	_, okB := loadOfField(b, next)
 	return okA && okB
+}
+
+// checkSymbolsComparedAsSymbols: C19-DEREF. Two symbols are equal exactly when
+// they have the same name (number). Compare first replaces every Selector
+// operand by what it selects; *SexpSymbol is a Selector (a dot-symbol x.y
+// selects the value at that path), so when both operands are symbols the
+// comparison is made on the referents: different names compare equal, and a
+// name whose referent is unbound cannot be compared with itself. The rule:
+// in Compare, a dereference of an operand is not reached when that operand is
+// a symbol and the other one is too (a test for *SexpSymbol guards it).
+func (c *Ctx) checkSymbolsComparedAsSymbols(rule string) {
+	cmp := c.mustFn(rule, "Zlisp.Compare")
+	symT := c.named("SexpSymbol")
+	if cmp == nil || symT == nil {
+		return
+	}
+	n := 0
+	eachInstr(cmp, func(b *ssa.BasicBlock, i int, in ssa.Instruction) {
+		call, ok := in.(*ssa.Call)
+		if !ok || !call.Call.IsInvoke() || call.Call.Method.Name() != "RHS" {
+			return
+		}
+		n++
+		guarded := guardedBy(b, func(cond ssa.Value) (bool, bool) {
+			ex, ok := cond.(*ssa.Extract)
+			if !ok || ex.Index != 1 {
+				return false, false
+			}
+			ta, ok := ex.Tuple.(*ssa.TypeAssert)
+			if !ok {
+				return false, false
+			}
+			if nm, ok := derefNamed(ta.AssertedType); !ok || nm != symT {
+				return false, false
+			}
+			return true, false
+		})
+		c.check(guarded, rule, "Zlisp.Compare", "symbol operands are not dereferenced", call.Pos(),
+			"the operand is followed to its referent only when it is not a symbol",
+			"Compare follows a symbol operand (a dot-symbol) to the value it names before comparing: (== (quote x.y) (quote x.z)) is true when the two fields hold equal values, and (== (quote p.q) (quote p.q)) is an error when p is unbound; symbols with different names compare equal, the same name does not compare equal to itself")
+	})
+	if n == 0 {
+		c.ok(rule, "Zlisp.Compare", "symbol operands are not dereferenced", cmp.Pos(), "Compare does not dereference selector operands")
+	}
 }
